@@ -161,7 +161,11 @@ def mutate(draw, text, kinds=None):
         elif m == "tabs":
             text = text.replace("    ", "\t")
         elif m == "formfeed":
-            i = draw(st.integers(0, len(lines) - 1))
+            # only in front of unindented lines: a form feed followed by indentation is ignored by CPython's indentation
+            # count but counted as a column by parso's tokenizer, which then nests the line differently (a quirk of the
+            # dependency, like the continuation case below; not a subject of these properties)
+            cand = [j for j, l_ in enumerate(lines) if not l_[:1].isspace()]
+            i = draw(st.sampled_from(cand)) if cand else 0
             lines[i] = "\x0c" + lines[i]
             text = "\n".join(lines)
         elif m == "continuation" and text:
